@@ -16,9 +16,9 @@ import (
 
 func init() { jobs = append(jobs, job{props: []string{"C07"}, fn: genAcctMod}) }
 
-// modDir resolves the directory of a third-party module at the version pinned
+// acctmodModDir resolves the directory of a third-party module at the version pinned
 // in /repo/go.mod inside the module cache.
-func modDir(mod string) string {
+func acctmodModDir(mod string) string {
 	b, err := os.ReadFile(filepath.Join(repo, "go.mod"))
 	if err != nil {
 		fail("read go.mod: %v", err)
@@ -38,8 +38,8 @@ func modDir(mod string) string {
 	return filepath.Join(cache, mod+"@"+string(m[1]))
 }
 
-// absFiles parses the given absolute file paths.
-func absFiles(paths ...string) []*ast.File {
+// acctmodAbsFiles parses the given absolute file paths.
+func acctmodAbsFiles(paths ...string) []*ast.File {
 	var files []*ast.File
 	for _, p := range paths {
 		f, err := parser.ParseFile(fset, p, nil, 0)
@@ -54,7 +54,7 @@ func absFiles(paths ...string) []*ast.File {
 
 // switchTable extracts `case A, B: <body>` clauses of the first switch in fd
 // whose tag prints as tag; body statements are handed to f.
-func switchClauses(fd *ast.FuncDecl, tag string) []*ast.CaseClause {
+func acctmodSwitchClauses(fd *ast.FuncDecl, tag string) []*ast.CaseClause {
 	var res []*ast.CaseClause
 	if fd == nil {
 		return nil
@@ -72,8 +72,8 @@ func switchClauses(fd *ast.FuncDecl, tag string) []*ast.CaseClause {
 	return res
 }
 
-// estimatorCalls lists the `weightEstimator.AddXxx()` methods called in stmts.
-func estimatorCalls(stmts []ast.Stmt) []string {
+// acctmodEstimatorCalls lists the `weightEstimator.AddXxx()` methods called in stmts.
+func acctmodEstimatorCalls(stmts []ast.Stmt) []string {
 	var res []string
 	for _, st := range stmts {
 		ast.Inspect(st, func(n ast.Node) bool {
@@ -100,14 +100,14 @@ func genAcctMod() {
 	ace := newConstEnv(acct)
 	ps := newConstEnv(pkgFiles("poolscript"))
 
-	lnd := modDir("github.com/lightningnetwork/lnd")
+	lnd := acctmodModDir("github.com/lightningnetwork/lnd")
 	if lnd == "" {
 		return
 	}
 	externConsts["blockchain.WitnessScaleFactor"] = 4
-	sizeFiles := absFiles(filepath.Join(lnd, "input", "size.go"))
+	sizeFiles := acctmodAbsFiles(filepath.Join(lnd, "input", "size.go"))
 	ice := newConstEnv(sizeFiles)
-	fce := newConstEnv(absFiles(filepath.Join(lnd, "lnwallet", "chainfee", "rates.go")))
+	fce := newConstEnv(acctmodAbsFiles(filepath.Join(lnd, "lnwallet", "chainfee", "rates.go")))
 
 	l := newLean("AcctModFacts", "Constants, witness-size table and output-type switch tables of "+
 		"account/manager.go, account/interfaces.go, poolscript/script.go and lnd input/size.go, chainfee/rates.go.")
@@ -138,7 +138,7 @@ func genAcctMod() {
 
 	// witnessType.witnessSize switch: witness type value -> size.
 	var rows []string
-	for _, cc := range switchClauses(findFunc(acct, "witnessType.witnessSize"), "wt") {
+	for _, cc := range acctmodSwitchClauses(findFunc(acct, "witnessType.witnessSize"), "wt") {
 		if cc.List == nil {
 			continue
 		}
@@ -170,7 +170,7 @@ func genAcctMod() {
 
 	// witnessType.IsExpirySpend: the witness types taking the expiry path.
 	rows = nil
-	for _, cc := range switchClauses(findFunc(acct, "witnessType.IsExpirySpend"), "wt") {
+	for _, cc := range acctmodSwitchClauses(findFunc(acct, "witnessType.IsExpirySpend"), "wt") {
 		if cc.List == nil || len(cc.Body) != 1 {
 			continue
 		}
@@ -204,11 +204,11 @@ func genAcctMod() {
 
 	// valueAfterAccountUpdate: output script class -> output size added.
 	rows = nil
-	for _, cc := range switchClauses(findFunc(acct, "valueAfterAccountUpdate"), "pkScript.Class()") {
+	for _, cc := range acctmodSwitchClauses(findFunc(acct, "valueAfterAccountUpdate"), "pkScript.Class()") {
 		if cc.List == nil {
 			continue
 		}
-		calls := estimatorCalls(cc.Body)
+		calls := acctmodEstimatorCalls(cc.Body)
 		if len(calls) != 1 {
 			fail("valueAfterAccountUpdate: case without exactly one estimator call")
 			continue
@@ -227,11 +227,11 @@ func genAcctMod() {
 
 	// OutputWithFee.CloseOutputs: class -> (output size added, dust script size).
 	rows = nil
-	for _, cc := range switchClauses(findFunc(acct, "OutputWithFee.CloseOutputs"), "pkScript.Class()") {
+	for _, cc := range acctmodSwitchClauses(findFunc(acct, "OutputWithFee.CloseOutputs"), "pkScript.Class()") {
 		if cc.List == nil {
 			continue
 		}
-		calls := estimatorCalls(cc.Body)
+		calls := acctmodEstimatorCalls(cc.Body)
 		dust := ""
 		for _, st := range cc.Body {
 			ast.Inspect(st, func(n ast.Node) bool {
@@ -337,5 +337,90 @@ func genAcctMod() {
 	}
 	l.p("/-- `DepositAccount` refuses a new value below `MinAccountValue` -/")
 	l.p("def depositChecksMin : Bool := %s", leanBool(depMin))
+	// WithdrawAccount: are outputs paying to the new account script refused?
+	wd := findFunc(acct, "manager.WithdrawAccount")
+	own := false
+	if wd == nil {
+		fail("WithdrawAccount not found")
+	} else {
+		ast.Inspect(wd.Body, func(n ast.Node) bool {
+			rs, ok := n.(*ast.RangeStmt)
+			if !ok || exprString(rs.X) != "outputs" {
+				return true
+			}
+			ast.Inspect(rs.Body, func(m ast.Node) bool {
+				if is, ok := m.(*ast.IfStmt); ok &&
+					exprString(is.Cond) == "bytes.Equal(out.PkScript, newAccountOutput.PkScript)" &&
+					len(is.Body.List) == 1 {
+
+					if _, ok := is.Body.List[0].(*ast.ReturnStmt); ok {
+						own = true
+					}
+				}
+				return true
+			})
+			return true
+		})
+	}
+	l.p("/-- `WithdrawAccount` refuses a requested output that pays to the new account script -/")
+	l.p("def withdrawRefusesOwnScript : Bool := %s", leanBool(own))
+
+	// determineWitnessType: the condition under which the expiry path is
+	// taken (all `if`s of the function, canonicalised, deduplicated).
+	dw := findFunc(acct, "determineWitnessType")
+	var conds []string
+	if dw == nil {
+		fail("determineWitnessType not found")
+	} else {
+		seen := map[string]bool{}
+		ast.Inspect(dw.Body, func(n ast.Node) bool {
+			if is, ok := n.(*ast.IfStmt); ok {
+				c := canonCmp(is.Cond)
+				if !seen[c] {
+					seen[c] = true
+					conds = append(conds, c)
+				}
+			}
+			return true
+		})
+		nAssign := 0
+		ast.Inspect(dw.Body, func(n ast.Node) bool {
+			if _, ok := n.(*ast.AssignStmt); ok {
+				nAssign++
+			}
+			return true
+		})
+		if nAssign > 0 {
+			conds = append(conds, "<local variables>")
+		}
+	}
+	l.p("/-- `determineWitnessType`: the distinct `if` conditions selecting the expiry witness -/")
+	l.p("def expiredConds : List String := %s", leanStrList(conds))
+
+	// spendAccount: lock time per witness type (`lockTime = X` in each case).
+	sp := findFunc(acct, "manager.spendAccount")
+	var lrows []string
+	for _, cc := range acctmodSwitchClauses(sp, "witnessType") {
+		if cc.List == nil {
+			continue
+		}
+		lt := ""
+		for _, st := range cc.Body {
+			if as, ok := st.(*ast.AssignStmt); ok && len(as.Lhs) == 1 &&
+				exprString(as.Lhs[0]) == "lockTime" {
+
+				lt = exprString(as.Rhs[0])
+			}
+		}
+		for _, e := range cc.List {
+			lrows = append(lrows, fmt.Sprintf("(%s, %q)", intConst(ace, "account", exprString(e)), lt))
+		}
+	}
+	sort.Strings(lrows)
+	if len(lrows) == 0 {
+		fail("spendAccount lock time switch not found")
+	}
+	l.p("/-- `spendAccount`: witness type -> expression assigned to the lock time -/")
+	l.p("def lockTimeSwitch : List (Nat × String) := [%s]", strings.Join(lrows, ", "))
 	l.p("end Pool.Gen.C07")
 }
